@@ -163,6 +163,54 @@ def random_spectrum(rng, nk, nth, style):
     return e
 
 
+def wind_on_threshold(ctx, pmod):
+    """a wind sitting EXACTLY on the wave-age threshold of a grid bin (wind along a spectral direction, agefac x wspd equal - bit for bit -
+    to the library's own celerity of a spectral frequency): whichever side the tie goes, every bin still belongs to exactly one
+    partition, so with no limit on the number of swells the partitions add up to the input."""
+    import xarray as xr
+    from wavespectra.core.utils import celerity
+    rng = np.random.RandomState(ctx.seed + 5)
+    nk, nth = 10, 12
+    freq, dirs = 0.05 + 0.03 * np.arange(nk), np.arange(nth) * 30.0
+    ii, jj = np.meshgrid(np.arange(nk), np.arange(nth), indexing="ij")
+    for rep in range(6 if ctx.quick else 60):
+        a = np.zeros((nk, nth))
+        for amp in (90, 60, 35):
+            ci, cj = rng.randint(1, nk - 1), rng.randint(0, nth)
+            dj = np.minimum((jj - cj) % nth, (cj - jj) % nth)
+            a += np.maximum(0, amp - 0.2 * amp * (np.abs(ii - ci) + dj) ** 2)
+        a += rng.randint(1, 4, size=a.shape)             # energy in every bin: a bin left out of every partition shows
+        dpt = float(rng.choice([15.0, 60.0, 2000.0]))
+        k, j = rng.randint(1, nk - 1), rng.randint(0, nth)
+        agefac = float(rng.choice([1.0, 1.0, 2.0, 0.5]))
+        wspd = float(celerity(freq, dpt)[k]) / agefac
+        if agefac * wspd != float(celerity(freq, dpt)[k]):
+            agefac, wspd = 1.0, float(celerity(freq, dpt)[k])
+        wdir = float(dirs[j])
+        for name in ("ptm1", "ptm2"):
+            ctx.case(("wind-tie", rep, name), True)
+            try:
+                parts = np.asarray(getattr(pmod, "np_" + name)(a, a, freq, dirs, wspd, wdir, dpt, agefac=agefac, wscut=0.3333, swells=None, ihmax=100), float)
+                da = xr.DataArray(a, coords={"freq": freq, "dir": dirs}, dims=("freq", "dir"), name="efth")
+                acc = getattr(da.spec.partition, name)(xr.DataArray(wspd), xr.DataArray(wdir), xr.DataArray(dpt), agefac=agefac, swells=12)
+                bad = []
+                if not np.allclose(parts.sum(axis=0), a, rtol=1e-12, atol=0):
+                    kk = np.unravel_index(np.argmax(np.abs(parts.sum(axis=0) - a)), a.shape)
+                    bad.append("np_%s: partitions sum to %.6g at bin %s, input %.6g" % (name, parts.sum(axis=0)[kk], kk, a[kk]))
+                s2 = np.asarray(acc.sum("part").transpose("freq", "dir").values, float)
+                if not np.allclose(s2, a, rtol=1e-6, atol=0):
+                    kk = np.unravel_index(np.argmax(np.abs(s2 - a)), a.shape)
+                    bad.append("accessor %s: partitions sum to %.6g at bin %s, input %.6g" % (name, s2[kk], kk, a[kk]))
+            except Exception as ex:  # noqa
+                bad = ["raised %s: %s" % (type(ex).__name__, str(ex)[:150])]
+            if bad:
+                ctx.violation({"op": name, "clause": "Conserving", "where": "wind-on-threshold"},
+                              "%s with the wind exactly on the wave-age threshold of bin (%d, %d): %s" % (name, k, j, bad[0]),
+                              {"wspd": wspd, "wdir": wdir, "dpt": dpt, "agefac": agefac, "spectrum": a.tolist()})
+            else:
+                ctx.replayed()
+
+
 def forwarding(ctx, pmod):
     import xarray as xr
     from wavespectra.core.utils import smooth_spec
@@ -345,6 +393,7 @@ def run(ctx):
     # ---- every keyword of the accessor methods reaches the routine: for non-default agefac / wscut / swells / ihmax / smoothing
     # windows the accessor result equals the numpy-level function called with the same values on each spectrum
     forwarding(ctx, pmod)
+    wind_on_threshold(ctx, pmod)
     # ---- extension beyond the listed property: the Hanson & Phillips merging (hp01) as a state machine, model-checked and
     # trace-validated; reported in the evidence notes only
     try:
